@@ -50,6 +50,21 @@ def run(ctx):
         if j == 0:
             for r in recs[:3]:
                 ctx.sample({"call": r["repr"], "dump": r["dump"]["kind"]})
+    # the same predicates when another caller's complete dump() falls between two lines of this one (two threads): ids
+    # stay verbatim / unique, members stay those of the own call
+    cf, of = ctx.path("cases_il.json"), ctx.path("recs_il.json")
+    json.dump(judged, open(cf, "w"))
+    common.run_py(os.path.join(VERIF, "harness", "envelope_run.py"), ["interleave", cf, of, ctx.seed, 60 if quick else 600, 24 if quick else 400])
+    recs = json.load(open(of))
+    fails, _ = casejudge.judge(ctx, "EnvelopeJudge", of, "EnvelopeJudge.cfg")
+    for i, r in enumerate(recs, 1):
+        ctx.cov["evaluations"] += 1
+        for name in sorted(n for n in fails.get(i, ()) if n.startswith("dump:")):
+            a = r["a"]
+            ctx.violation("%s:interleaved:id=%s" % (name, a["id"]), "%s fails for %s -> %s" % (name, r["repr"], r["dump"]["kind"]),
+                          {"kind": "interleaving", "case": r})
+        if not [n for n in fails.get(i, ()) if n.startswith("dump:")]:
+            ctx.cov["traces_validated_against_impl"] += 1
     # spec growth (not part of the verdict): the Fault object as a state machine
     from checks import growth
     growth.safely(ctx, growth.run_fault_obj)
